@@ -1,5 +1,5 @@
 (* C05 -- Custom operators and token types integrate consistently.  Property theorems only. *)
-Require Import Base Token Tree Parser Registry ParserSpec RegistryProofs RenameProofs.
+Require Import Base Token Tree Parser Registry ParserSpec RegistryProofs RenameProofs ClimbSpec ClimbProofs.
 Require Import Gen.Tables.
 
 (* token ids: one stable id per name, distinct across names, above every built-in type *)
@@ -78,3 +78,47 @@ Theorem C05_postfix_call_level : forall cfg ty,
     = Some (EPostfix (ps_cur (ps_next s)) left (t_lit (ps_cur (ps_next s))), ps_next s).
 Proof. exact postfix_call_level. Qed.
 Print Assumptions C05_postfix_call_level.
+
+(* EVERY LEVEL (ClimbSpec.v): for every configuration - any registered infix operators at
+   any levels above LOWEST, both modes, any interceptors - and every operator tree over
+   identifiers and integer literals that mixes built-in binary operators and registered
+   infix operators and is grouped like left-associative operators of their levels (left
+   operand: level >= k, right operand: level > k), the parser returns exactly that tree
+   for the tree's tokens and reports no error.  With C02_unambiguous-style uniqueness
+   ([cgroup_unique]) the tree is the only well-grouped one with those tokens.
+   [cfg_ok] (ClimbSpec.v): no prefix operator registered on IDENT / INT (the builder refuses
+   it) and EOF does not continue the Pratt loop (implied by ops_sane); both are necessary:
+   ClimbProofs.cfg_ok_needed_prefix, cfg_ok_needed_eof. *)
+Theorem C05_groups_by_level : forall cfg c semi eof,
+  cfg_ok cfg = true ->
+  well_grouped cfg c = true -> semi_ok semi = true -> t_type eof = T_EOF ->
+  exists r, parse_tokens cfg (cstmt_tokens c semi eof) = Some r /\
+            p_stmts (pr_program r) = [SExpr (cexpr c)] /\
+            pr_errors r = [] /\ pr_err_returned r = false.
+Proof. exact groups_by_level. Qed.
+Print Assumptions C05_groups_by_level.
+
+Theorem C05_grouping_unique : forall cfg c1 c2,
+  well_grouped cfg c1 = true -> well_grouped cfg c2 = true ->
+  cyield c1 = cyield c2 -> c1 = c2.
+Proof. exact cgroup_unique. Qed.
+Print Assumptions C05_grouping_unique.
+
+(* ... and [cfg_ok] holds for EVERY configuration a builder can produce, whatever the
+   registration history (a prefix operator on IDENT / INT is refused and leaves the builder
+   unchanged), provided no infix / postfix operator is registered on the end-of-input
+   token (ClimbSpec-independent: [no_eof_op], ClimbProofs.v). *)
+Theorem C05_cfg_ok_reachable : forall ops, Forall no_eof_op ops ->
+  cfg_ok (pb_build (snd (pb_run pbuilder_new ops))) = true.
+Proof. exact cfg_ok_reachable. Qed.
+Print Assumptions C05_cfg_ok_reachable.
+
+Theorem C05_groups_by_level_reachable : forall ops c semi eof,
+  Forall (fun o => match o with BRegInfix ty _ | BRegPostfix ty => ty <> T_EOF | _ => True end) ops ->
+  let cfg := pb_build (snd (pb_run pbuilder_new ops)) in
+  well_grouped cfg c = true -> semi_ok semi = true -> t_type eof = T_EOF ->
+  exists r, parse_tokens cfg (cstmt_tokens c semi eof) = Some r /\
+            p_stmts (pr_program r) = [SExpr (cexpr c)] /\
+            pr_errors r = [] /\ pr_err_returned r = false.
+Proof. exact groups_by_level_reachable. Qed.
+Print Assumptions C05_groups_by_level_reachable.
